@@ -238,7 +238,7 @@ def C09(ctx):
     ctx.res.cov['exhaustive'] = True
     ctx.run(cases, runtime=False, check=False)
     # a variadic provider whose fixed parameter has the slice type of the variadic one; zero-call injectors declaring results they do not need
-    ctx.run(ctx.export('FamilyX(p, {"variadic-dup-param", "arg-returned-directly-full-sig", "variadic-err-provider"})'), nontrivial=lambda c: True, runtime=True, switches=ALL)
+    ctx.run(ctx.export('FamilyX(p, {"variadic-dup-param", "arg-returned-directly-full-sig", "variadic-err-provider", "multi-name-var-sets-badsig"})'), nontrivial=lambda c: True, runtime=True, check=True, switches=ALL)
 
 
 # ------------------------------------------------------------------ C10
@@ -277,7 +277,7 @@ def C11(ctx):
     ctx.run(cases, runtime=True, switches=W_ONLY)
     ctx.rules.append('family X: binding an interface to an interface that lacks a method, an injector that returns one of several arguments through a binding without calling any provider, '
                      'two sets sharing their first import of which only one provides the bound type')
-    ctx.run(ctx.export('FamilyX(p, {"bind-iface-not-implementing", "arg-returned-through-bind", "arg-returned-directly", "shared-import-bind-lacks-concrete", "missing-behind-bind", "bind-to-field-type", "bind-after-concrete"})'), runtime=True, switches=W_ONLY)
+    ctx.run(ctx.export('FamilyX(p, {"bind-iface-not-implementing", "arg-returned-through-bind", "arg-returned-directly", "shared-import-bind-lacks-concrete", "missing-behind-bind", "bind-to-field-type", "bind-after-concrete", "multi-name-var-sets-bind"})'), runtime=True, switches=W_ONLY)
 
 
 # ------------------------------------------------------------------ C12
